@@ -174,11 +174,30 @@ def assume(cond, truth, env):
         if truth:
             e = assume(c['l'], True, env)
             return None if e is None else assume(c['r'], True, e)
+        # l && r is false: if one operand is known true on this path the other one is false
+        if not has_side_effect(c):
+            lf = assume(c['l'], False, env)
+            rf = assume(c['r'], False, env)
+            if lf is None and rf is None:
+                return None
+            if lf is None:
+                return rf
+            if rf is None:
+                return lf
         return env
     if k == 'bin' and c.get('op') == '||':
         if not truth:
             e = assume(c['l'], False, env)
             return None if e is None else assume(c['r'], False, e)
+        if not has_side_effect(c):
+            lt = assume(c['l'], True, env)
+            rt = assume(c['r'], True, env)
+            if lt is None and rt is None:
+                return None
+            if lt is None:
+                return rt
+            if rt is None:
+                return lt
         return env
     if k == 'call':
         kk = key(c)
@@ -540,6 +559,12 @@ def _record_value(e, env, tgt, lnode, rnode):
         k1, k2 = const_int(r['x']), const_int(r['y'])
         if k1 is not None and k2 is not None:
             e.ints[ctgt] = (min(k1, k2), max(k1, k2), frozenset())
+        elif not lnode.get('p'):
+            from . import ivl
+            rng = ivl.eval_raw(rnode, env)
+            tr = ivl.type_range(lnode) if (lnode.get('w') or lnode.get('bf')) else (-INF, INF)
+            if rng[0] != -INF and rng[1] != INF and ivl.fits(rng, tr) and rng != tr:
+                e.ints[ctgt] = (rng[0], rng[1], frozenset())
     elif r.get('k') == 'bin' and r.get('op') in ('&', '>>', '%', '+', '-', '<<', '*', '/') and not lnode.get('p'):
         # masks / shifts / small arithmetic: keep the interval when it is finite and not the whole type
         from . import ivl
